@@ -17,7 +17,7 @@ CHECKS = {}
 
 CHECKS["C12"] = dict(
     level_text="For every byte string pair / triple and every change sequence inside the stated bounds the solver shows that no feasible path of the real ComparePath / Validator.HandleChange code violates the order axioms or disagrees with the reference acceptor written from the statement; outside the bounds nothing is claimed.",
-    level_note="Bounds: paths <=4 bytes (quick) / <=6 (thorough) for the order, sequences of 2 changes x <=3 bytes (quick) / 3 x <=4 (thorough). Trusted: go/ssa construction, the gosym interpreter (validated on every run by replaying sampled paths natively and comparing observed values), z3; pkg/errors and fmt are opaque-error models.",
+    level_note="Bounds: paths <=4 bytes (quick) / <=6 (thorough) for the order, sequences of 2 changes x <=3 bytes (quick) / 3 x <=3 and 2 x <=4 (thorough). Trusted: go/ssa construction, the gosym interpreter (validated on every run by replaying sampled paths natively and comparing observed values), z3; pkg/errors and fmt are opaque-error models.",
     assumptions=[
         "bounded: paths of at most N bytes (all 256 byte values per position), sequences of at most K changes; longer inputs are outside the claim",
         "pkg/errors and fmt are replaced by opaque-error models (error text is never asserted)",
@@ -30,7 +30,8 @@ CHECKS["C12"] = dict(
         [ob("VH_C12_trans", dict(N=2), Q, covers=["chain"], bounds="triples of byte strings of length <=2"),
          ob("VH_C12_trans", dict(N=3), T, covers=["chain"], bounds="triples of byte strings of length <=3"),
          ob("VH_C12_seq", dict(K=2, N=3), Q, covers=["spec-accepts", "spec-rejects", "all-accepted"], bounds="2 changes, paths <=3 bytes, kinds dir/file/delete"),
-         ob("VH_C12_seq", dict(K=3, N=4), T, covers=["spec-accepts", "spec-rejects", "all-accepted"], bounds="3 changes, paths <=4 bytes"),
+         ob("VH_C12_seq", dict(K=3, N=3), T, covers=["spec-accepts", "spec-rejects", "all-accepted"], bounds="3 changes, paths <=3 bytes", max_paths=2000000),
+         ob("VH_C12_seq", dict(K=2, N=4), T, covers=["spec-accepts", "spec-rejects", "all-accepted"], bounds="2 changes, paths <=4 bytes", max_paths=2000000),
          ],
 )
 
@@ -205,6 +206,7 @@ CHECKS["C13"] = dict(
         ob("VH_C13_tree", dict(S=12, MAXB=1, OPT=3), pkg=COPY, covers=["done"], bounds="{f, l, p}, chown+mode"),
         ob("VH_C13_tree", dict(S=1, MAXB=0, OPT=8), pkg=COPY, covers=["done"], bounds="{f, d, d/g}, symbolic modes a+X / go-w"),
         ob("VH_C13_tree", dict(S=1, MAXB=1, OPT=0, X=1), pkg=COPY, covers=["done"], bounds="{f, d, d/g} with optional user.* xattrs on t and f"),
+        ob("VH_C13_single", {}, pkg=COPY, covers=["options", "sub-directory", "created-parents"], bounds="single file / single symlink (copied, or followed with follow-links) / sub-directory, to g or to a/b/g with missing parents, with and without chown+utime"),
         ob("VH_C13_tree", dict(S=15, MAXB=2, OPT=0), T, pkg=COPY, covers=["done"], bounds="whole universe, files <=2 bytes"),
         ob("VH_C13_tree", dict(S=15, MAXB=1, OPT=7), T, pkg=COPY, covers=["done"], bounds="whole universe, chown+mode+utime"),
         ob("VH_C13_tree", dict(S=13, MAXB=0, OPT=9), T, pkg=COPY, covers=["done"], bounds="{f, d, d/g, l, p}, chown + symbolic modes"),
